@@ -1104,9 +1104,24 @@ impl AstNode for MapConstructor {
     }
 }
 
+fn error_at(pair: &Pair<Rule>, message: String) -> Error {
+    Error {
+        message,
+        src: pair.as_span().get_input().to_string(),
+        span: pair.as_span().into(),
+    }
+}
+
 impl DataExpr {
     fn number_parse(pair: Pair<Rule>) -> Result<Self, Error> {
-        Ok(DataExpr::Number(pair.as_str().parse().unwrap()))
+        let value = pair.as_str().parse().map_err(|_| {
+            error_at(
+                &pair,
+                format!("number literal out of range: {}", pair.as_str()),
+            )
+        })?;
+
+        Ok(DataExpr::Number(value))
     }
 
     fn bool_parse(pair: Pair<Rule>) -> Result<Self, Error> {
